@@ -184,6 +184,22 @@ func runC10(c *core.Ctx) {
 	}
 	c.Sample("m/0000000000000000000002147483647H/1/2")
 
+	// digit-count sweep: a component of every length 1..1100 (zero padding in front of a small, a boundary and an overflowing
+	// value; counters of 8 and 10 bits wrap inside), plain and hardened, alone and as second component
+	for _, v := range []string{"0", "7", "2147483647", "2147483648", "1000000000"} {
+		for z := 0; z <= 1100; z++ {
+			if z > 40 && z%7 != 0 && (z+len(v))%256 > 3 && (z+len(v))%256 < 253 && (z+len(v))%1024 > 3 {
+				continue // every length near the multiples of 256, every 7th elsewhere
+			}
+			comp := strings.Repeat("0", z) + v
+			for _, s := range []string{"m/" + comp, comp + "'", "m/1/" + comp + "H/2"} {
+				if c10Judge(c, s, "digit-count") {
+					nontriv++
+				}
+			}
+		}
+	}
+
 	// every byte value (and every multi-byte rune of a small set) at every position of a set of templates: as a marker
 	// behind the digits, between digits, in front, as separator, as prefix letter; substituted and inserted. This replaces
 	// the assumption that every byte outside the alphabet behaves like 'x'.
